@@ -491,13 +491,32 @@ def gen_limits():
     t = _src(rel)
     body = _function_body(rel, t, r"static\s+int\s+_yr_scanner_scan_mem_block\s*\([^)]*\)\s*\{")
     o.comment("scanner.c block loop: `while (i < block->size) { if (i % N == R && scanner->timeout > 0) { if (elapsed OP timeout) ERROR_SCAN_TIMEOUT } ... block_data[i++] ...}`")
-    m = _one(rel, body, r"while\s*\(\s*i\s*<\s*block->size\s*\)\s*\{\s*if\s*\(\s*i\s*%\s*(\d+)\s*==\s*(\d+)\s*&&\s*scanner->timeout\s*>\s*0\s*\)\s*\{\s*"
+    m = _one(rel, body, r"while\s*\(\s*i\s*<\s*block->size\s*\)\s*\{\s*if\s*\(([^{}]*?)\)\s*\{\s*"
                         r"if\s*\(\s*yr_stopwatch_elapsed_ns\s*\(\s*&scanner->stopwatch\s*\)\s*" + OPRE + r"\s*scanner->timeout\s*\)\s*\{\s*"
                         r"result\s*=\s*(\w+)\s*;\s*goto\s+_exit\s*;", "timeout check of the block loop")
-    o.z("block_check_modulus", m.group(1))
-    o.z("block_check_residue", m.group(2))
-    o.op("block_timeout_op", m.group(3))
-    o.operand("block_timeout_error", m.group(4), "scanner.c timeout")
+    # the guard: a conjunction of `i % N == R`, `scanner->timeout > 0` and further tests of the in-block offset i
+    conj = [c_.strip() for c_ in m.group(1).split("&&")]
+    if "||" in m.group(1) or "?" in m.group(1):
+        raise GenError("translator cannot parse scanner.c: guard of the block loop's timeout check is not a conjunction: " + m.group(1).strip())
+    mods = [re.fullmatch(r"\(?\s*i\s*%\s*(\d+)\s*==\s*(\d+)\s*\)?", c_) for c_ in conj]
+    tmo = [c_ for c_ in conj if re.fullmatch(r"\(?\s*scanner->timeout\s*(>|!=)\s*0\s*\)?", c_)]
+    if len([x for x in mods if x]) != 1 or len(tmo) != 1:
+        raise GenError("translator cannot parse scanner.c: guard `%s` needs exactly one `i %% N == R` and one `scanner->timeout > 0`" % m.group(1).strip())
+    mm0 = [x for x in mods if x][0]
+    extra = []
+    for c_, mx in zip(conj, mods):
+        if mx or c_ in tmo:
+            continue
+        me = re.fullmatch(r"\(?\s*i\s*" + OPRE + r"\s*(\d+)\s*\)?", c_)
+        if not me:
+            raise GenError("translator cannot parse scanner.c: conjunct `%s` of the block loop's timeout guard" % c_)
+        extra.append("cmp_eval %s i %s" % (OPS[me.group(1)], me.group(2)))
+    o.z("block_check_modulus", mm0.group(1))
+    o.z("block_check_residue", mm0.group(2))
+    o.lines.append("(* further conjuncts of the guard, over the offset i inside the current block *)")
+    o.lines.append("Definition block_guard_extra (i : Z) : bool := %s." % " && ".join(extra + ["true"]))
+    o.op("block_timeout_op", m.group(2))
+    o.operand("block_timeout_error", m.group(3), "scanner.c timeout")
     nostr = re.sub(r'"(?:[^"\\\n]|\\.)*"', '""', body)
     steps = re.findall(r"\bi\+\+|\+\+i\b|\bi\s*\+=|\bi\s*-=|\bi--|\bi\s*=[^=]", nostr)
     # `size_t i = 0;` is the only assignment, `block_data[i++]` the only increment
